@@ -626,7 +626,7 @@ func propSpecs() map[string]PropSpec {
 		Assume: []string{"no gate locks: every other mutex is a leaf taken while inode locks are held (true for this code base)", "fresh (just allocated, free) inodes are exempt from the order: nobody can hold a free inode while waiting for another lock"}})
 	add(PropSpec{ID: "C14", Level: "exploration", Classes: []string{"race", "crash", "hang"},
 		Rule: "the harness is built with -race (which also instruments /repo and GoJournal) and runs the conflicting concurrent histories of C03 (same names, same files, shrinker active, READDIRPLUS during updates, restarts, direct and rpc adapters) with the lock monitor and seeded yields on; every report of the race detector with a repository or GoJournal frame is a violation (de-duplicated by the pair of first repository frames); distinct = distinct interleaving fingerprints, counted only when locks were contended",
-		Plan: withConc(noJobs, "C14", 32, 300, true),
+		Plan: withConc(noJobs, "C14", 32, 900, true),
 		Assume: []string{"the race detector only observes the interleavings that were executed", "GORACE=halt_on_error=0: reports are collected from the log files, exit codes are not trusted"}})
 	add(PropSpec{ID: "C15", Level: "exploration", Exhaustive: true, Classes: []string{"size", "crash"},
 		Rule: "EXHAUSTIVE over the stated ranges: every disk size from the smallest one MakeNfs accepts (found by trying downwards) for 400 (thorough: 3000) consecutive sizes and every size within +-40 of 32768*k (k=1,2,3) is formatted by the real MakeNfs; per size: regions ordered/disjoint/inside the disk, fresh bitmaps mark exactly the non-data blocks + the root directory and inodes 0,1, allocators agree, root usable; sampled sizes (thorough: all of the dense range) are filled to NOSPC (free must reach 0, every data block owned once, none outside) and emptied again (free = initial); distinct = distinct (bitmap blocks, size mod 8, position relative to 32768) classes",
@@ -667,7 +667,7 @@ func propSpecs() map[string]PropSpec {
 		Plan: func(tier string, seed uint64) []Job {
 			n, it := 16, 60
 			if tier == "thorough" {
-				n, it = 64, 400
+				n, it = 320, 600
 			}
 			var js []Job
 			for i := 0; i < n; i++ {
@@ -681,7 +681,7 @@ func propSpecs() map[string]PropSpec {
 		Plan: func(tier string, seed uint64) []Job {
 			n := 8
 			if tier == "thorough" {
-				n = 80
+				n = 320
 			}
 			var js []Job
 			for i := 0; i < n; i++ {
@@ -694,7 +694,7 @@ func propSpecs() map[string]PropSpec {
 		Plan: func(tier string, seed uint64) []Job {
 			n := 8
 			if tier == "thorough" {
-				n = 80
+				n = 480
 			}
 			var js []Job
 			for i := 0; i < n; i++ {
@@ -707,7 +707,7 @@ func propSpecs() map[string]PropSpec {
 		Plan: func(tier string, seed uint64) []Job {
 			n := 40
 			if tier == "thorough" {
-				n = 200
+				n = 1200
 			}
 			var js []Job
 			for i := 0; i < n; i++ {
@@ -720,21 +720,21 @@ func propSpecs() map[string]PropSpec {
 		Plan: func(tier string, seed uint64) []Job {
 			n := 60
 			if tier == "thorough" {
-				n = 600
+				n = 2400
 			}
 			var js []Job
 			for i := 0; i < n; i++ {
 				js = append(js, Job{Engine: "enum", Profile: "C13", Seed: seed, Case: i})
 			}
 			// directories as concurrent and directed histories leave them
-			return withWindow(withConc(func(string, uint64) []Job { return js }, "C13", 16, 160, false), "C13")(tier, seed)
+			return withWindow(withConc(func(string, uint64) []Job { return js }, "C13", 16, 400, false), "C13")(tier, seed)
 		}})
 	add(PropSpec{ID: "C19", Level: "exploration", Classes: []string{"limit", "crash"},
 		Rule: "names of length limit-2..limit+2, 255, 256, 1000+ (CREATE/MKDIR/SYMLINK/RENAME, then LOOKUP/list/rename/restart); WRITEs of wtpref, wtmax-1, wtmax, wtmax+1, 2*wtmax bytes at six offsets and three stability levels with read-back; file sizes maxfilesize-4097..+4097 and up to 2^64-1 by WRITE and SETATTR with reads, restart, truncation; beyond => error and unchanged tree/free counts; distinct = distinct (limit, delta, procedure, outcome) cases",
 		Plan: func(tier string, seed uint64) []Job {
 			n := 12
 			if tier == "thorough" {
-				n = 60
+				n = 1200
 			}
 			var js []Job
 			for i := 0; i < n; i++ {
